@@ -88,6 +88,9 @@ class RMWorld(CompWorld):
                 result = rm.reserve_resources(req)
                 if req != self.requests[label[1]]:
                     raise Violation('request_mutated', f'reserve_resources changed the caller\'s request {req}')
+                for k_ in list(req):
+                    req[k_] = 77          # the caller re-uses its dictionary: the reservation must not alias it
+                req['later'] = 1
             elif k == 'release':
                 spec = copy.deepcopy(self.releases[label[2]])
                 self.res[label[1]].release(spec)
@@ -307,7 +310,8 @@ class RMWaitWorld(CompWorld):
 
     def take(self, req):
         for r, n in req.items():
-            self.pool[r][0] += n
+            if n > 0:
+                self.pool[r][0] += n
 
     # called by the REAL resource manager
     def called(self, cb, mgr, req):
@@ -325,7 +329,7 @@ class RMWaitWorld(CompWorld):
         if cb.kind in ('take', 'again'):
             rr = mgr.reserve_resources(copy.deepcopy(want))
             if rr is not None:
-                self.res.append([rr, dict(want), 'cb'])
+                self.res.append([rr, {r_: n_ for r_, n_ in want.items() if n_ > 0}, 'cb'])
             if cb.kind == 'again' and rr is not None:
                 pass
             if cb.kind == 'again':
@@ -372,7 +376,10 @@ class RMWaitWorld(CompWorld):
             self.ncb += 1
             cb = WaitCallback(self, self.ncb, label[2], label[1])
             self.waiting.append([cb.cid, label[1], label[2]])
-            rm.reserve_resources_with_callback(self.requests[label[1]], cb)
+            mine = copy.deepcopy(self.requests[label[1]])
+            rm.reserve_resources_with_callback(mine, cb)
+            for k_ in list(mine):
+                mine[k_] = 77             # the caller re-uses its dictionary while the request is waiting
             self.dirty = True
             self.facts.append('registered')
         elif k == 'reserve':
@@ -383,7 +390,7 @@ class RMWaitWorld(CompWorld):
                 raise Violation('reserve_result', f'reserve_resources({req}) -> {rr}, reference fits={f}')
             if rr is not None:
                 self.take(req)
-                self.res.append([rr, dict(req), 'direct'])
+                self.res.append([rr, {r_: n_ for r_, n_ in req.items() if n_ > 0}, 'direct'])
         elif k == 'release':
             rr, held, _ = self.res[label[1]]
             rr.release()
